@@ -108,6 +108,29 @@ class SatAdd(Expr):
         return SatAdd(self.a.ren(m), self.b.ren(m), self.cap)
 
 
+class LetIn(Expr):
+    """a Rust block that shadows a rule variable: `{ let v = <init>; <body> }`; the `v` inside <init> is the outer variable"""
+
+    def __init__(self, var, init, body):
+        self.var, self.init, self.body = var, init, body
+
+    def rs(self, sc=None):
+        inner = {k: t for k, t in sc.items() if k != self.var} if sc else sc
+        return '{ let %s = %s; %s }' % (self.var, self.init.rs(sc), self.body.rs(inner))
+
+    def ev(self, env):
+        env2 = dict(env)
+        env2[self.var] = self.init.ev(env)
+        return self.body.ev(env2)
+
+    def vars(self):
+        return self.init.vars() | (self.body.vars() - {self.var})
+
+    def ren(self, m):
+        # the block-local binding is renamed together with the outer variable of the same name (still the same meaning)
+        return LetIn(m.get(self.var, self.var), self.init.ren(m), self.body.ren(m))
+
+
 class MinMax(Expr):
     def __init__(self, which, a, b):
         self.which, self.a, self.b = which, a, b
